@@ -260,6 +260,9 @@ ProjRhs(ts, i, p, m) ==
 DotRhs(ts, i, p, m) ==
   LET k == K(ts, i) IN
   IF k = "star" /\ ts[i].sp /\ ~m.ws THEN PFail       \* ". *": blank inside the composite
+  \* sub-expression = expression "." ( identifier / multi-select / function / "*" ): a let EXPRESSION is
+  \* not among them -- after a dot "let" is the identifier, and a variable cannot follow an identifier
+  ELSE IF k = "id" /\ IsKw(ts[i], <<108,101,116>>) /\ K(ts, i + 1) = "var" THEN PFail
   ELSE IF k \in {"id", "qid", "star"} THEN Expr(ts, i, p, m)
   ELSE IF k = "lbracket"
        THEN LET r == MSListRest(ts, i + 1, <<>>, m) IN
